@@ -72,8 +72,10 @@ Proof.
   - unfold start_if_ready.
     match goal with |- context [if ?c then ok [] else _] => destruct c end; [noadd|].
     destruct (should_skip _); [unfold ok; cbn [h_commits]; noadd|].
+    destruct (milestone_expired _ _); [unfold ok; cbn [h_commits]; noadd|].
     destruct (mutex_blocked _ _ _); [unfold ok; cbn [h_commits]; noadd|].
     destruct (_ && choice_claimed _ _ _); [unfold ok; cbn [h_commits]; noadd|].
+    destruct (y_expired _); [unfold ok; cbn [h_commits]; noadd|].
     match goal with |- context [negb (fst ?m)] => destruct (fst m) end; cbn [negb]; [|unfold ok; cbn [h_commits]; noadd].
     match goal with |- context [negb (fst ?c)] => destruct (fst c) end; cbn [negb]; [|unfold ok; cbn [h_commits]; noadd].
     unfold ok; cbn [h_commits]. apply Forall_app. split.
